@@ -102,4 +102,17 @@ def sort_lines (text : Str) (dedupe : Bool) : Str :=
   (let answer : Str := (join ([(Char.ofNat 10)] : Str) (sortStr lines))
   (leading ++ answer ++ trailing))
 
+-- gapic/schema/metadata.py — Metadata.doc
+def metadata_doc (leading : Str) (trailing : Str) (detached : List Str) : Str :=
+  if (truthy leading) then
+  ((strip leading))
+  else
+  (if (truthy trailing) then
+  ((strip trailing))
+  else
+  (if (truthy detached) then
+  ((join ([(Char.ofNat 10), (Char.ofNat 10)] : Str) detached))
+  else
+  (([] : Str))))
+
 end GapicModel.Generated.Funcs
